@@ -160,6 +160,24 @@ def Dat (u N m : Nat) (s : State) : Prop :=
   ∃ w, s.ws = [w] ∧ WOk u N w ∧ w.pids.length = m ∧ s.blocked = false ∧ s.k.Still ∧
     ∀ pid ∈ w.pids, ∃ p, s.k.find pid = some p ∧ p.st = .run
 
+/-- `Dat` with the list of pids spelled out -/
+def DatL (u N : Nat) (l : List Nat) (s : State) : Prop :=
+  ∃ w, s.ws = [w] ∧ WOk u N w ∧ w.pids = l ∧ s.blocked = false ∧ s.k.Still ∧
+    ∀ pid ∈ l, ∃ p, s.k.find pid = some p ∧ p.st = .run
+
+theorem DatL.dat {u N : Nat} {l : List Nat} {s : State} (h : DatL u N l s) : Dat u N l.length s := by
+  obtain ⟨w, h1, h2, h3, h4, h5, h6⟩ := h
+  exact ⟨w, h1, h2, by rw [h3], h4, h5, by rw [h3]; exact h6⟩
+
+theorem Dat.datL {u N m : Nat} {s : State} (h : Dat u N m s) : ∃ l, l.length = m ∧ DatL u N l s := by
+  obtain ⟨w, h1, h2, h3, h4, h5, h6⟩ := h
+  exact ⟨w.pids, h3, w, h1, h2, rfl, h4, h5, h6⟩
+
+theorem DatL.snoc_dat {u N m : Nat} {l : List Nat} {x : Nat} {s : State} (h : DatL u N (l ++ [x]) s) (hl : l.length = m) :
+    Dat u N (m + 1) s := by
+  have := h.dat
+  simpa [hl] using this
+
 /-- the control part is untouched -/
 structure SameCtl (s t : State) : Prop where
   frames : t.frames = s.frames
@@ -181,6 +199,22 @@ theorem notify_log (u : Nat) (t : String) (p : Option Nat) (x : String) (s : Sta
     split
     · exact ⟨s.log, rfl⟩
     · exact ⟨_, rfl⟩
+
+/-- the event a watcher named `wname` publishes (nothing once the PUB socket is closed) -/
+def evs (a : Arbiter) (wname topic : String) (pid : Option Nat) (x : String) : List Obs :=
+  if a.pubClosed then [] else [Obs.ev (resName wname) topic pid x]
+
+theorem notify_single (u : Nat) (w : Watcher) (t : String) (p : Option Nat) (x : String) (s : State)
+    (hws : s.ws = [w]) (hu : w.uid = u) (hb : s.blocked = false) :
+    notify u t p x s = ((), { s with log := s.log ++ evs s.a w.name t p x }) := by
+  unfold notify evs
+  simp only [bind, getA]
+  have hg : getW u s = (w, s) := by simp [getW, hws, hu]
+  rw [hg]
+  by_cases hc : s.a.pubClosed = true
+  · erw [if_pos hc]; simp [hc, pure]
+  · erw [if_neg hc]
+    simp [emitEv, modS, hb, hc]
 
 /-- a list without duplicates inside another one is not longer -/
 theorem nodup_subset_length {l m : List Nat} (hn : l.Nodup) (hs : ∀ x ∈ l, x ∈ m) : l.length ≤ m.length := by
@@ -243,11 +277,11 @@ theorem spawnAdopt_single (u wid : Nat) (w : Watcher) (s : State) (hws : s.ws = 
   simp only [Kernel.spawn_still hk, hws, List.find?_cons, hu, decide_true, Option.getD_some, List.map_cons, List.map_nil,
     if_true]
 
-theorem adopted_dat (u N m wid : Nat) (w : Watcher) (s : State) (hw : WOk u N w)
-    (hlen : w.pids.length = m) (hb : s.blocked = false) (hk : s.k.Still)
-    (hrun : ∀ pid ∈ w.pids, ∃ p, s.k.find pid = some p ∧ p.st = .run) : Dat u N (m + 1) (adopted wid w s) := by
+theorem adopted_datL (u N wid : Nat) (l : List Nat) (w : Watcher) (s : State) (hw : WOk u N w)
+    (hl : w.pids = l) (hb : s.blocked = false) (hk : s.k.Still)
+    (hrun : ∀ pid ∈ l, ∃ p, s.k.find pid = some p ∧ p.st = .run) : DatL u N (l ++ [s.k.nextPid]) (adopted wid w s) := by
   refine ⟨{ w with pids := w.pids ++ [s.k.nextPid] }, rfl, ⟨hw.uid, hw.status, hw.respawn, hw.maxAge, hw.onDemand,
-    hw.hooks, hw.np, hw.retry⟩, by simp [hlen], hb, Kernel.spawned_still hk, ?_⟩
+    hw.hooks, hw.np, hw.retry⟩, by simp [hl], hb, Kernel.spawned_still hk, ?_⟩
   intro pid hp
   simp only [List.mem_append, List.mem_cons, List.mem_nil_iff, or_false] at hp
   rcases hp with hp | rfl
@@ -255,21 +289,30 @@ theorem adopted_dat (u N m wid : Nat) (w : Watcher) (s : State) (hw : WOk u N w)
     exact ⟨p, Kernel.spawned_find_old hf, hr⟩
   · exact ⟨s.k.newProc, Kernel.spawned_find_new hk, rfl⟩
 
-theorem spawnProcess_dat (rec : Rec) (u N m : Nat) (s : State) (hd : Dat u N m s) (hm : m < N) :
-    ∃ s', spawnProcess rec u s = (.started s.k.now, s') ∧ Dat u N (m + 1) s' ∧ SameCtl s s' := by
+theorem adopted_dat (u N m wid : Nat) (w : Watcher) (s : State) (hw : WOk u N w)
+    (hlen : w.pids.length = m) (hb : s.blocked = false) (hk : s.k.Still)
+    (hrun : ∀ pid ∈ w.pids, ∃ p, s.k.find pid = some p ∧ p.st = .run) : Dat u N (m + 1) (adopted wid w s) :=
+  (adopted_datL u N wid w.pids w s hw rfl hb hk hrun).snoc_dat hlen
+
+/-- **`spawn_process` in a still kernel**: one more listed running worker (the kernel's next pid), one
+    `spawn` observation and its event; the control state is untouched -/
+theorem spawnProcess_datL (rec : Rec) (u N : Nat) (l : List Nat) (s : State) (hd : DatL u N l s) (hm : l.length < N) :
+    ∃ s', spawnProcess rec u s = (.started s.k.now, s') ∧ DatL u N (l ++ [s.k.nextPid]) s' ∧ SameCtl s s' ∧
+      s.k.nextPid < s'.k.nextPid ∧
+      ∀ w, s.ws = [w] → ∃ wid, s'.log = s.log ++ (Obs.spawn s.k.nextPid w.name wid :: evs s.a w.name "spawn" (some s.k.nextPid) "-") := by
   obtain ⟨w, hws, hw, hlen, hb, hk, hrun⟩ := hd
   have hg := getW_single u w s hws hw.uid
   obtain ⟨wid, hwid⟩ := nextWid_some N ((usedWids u s).1) (by
-    simp only [usedWids, bind, hg, getS, pure, List.length_map]; omega)
+    simp only [usedWids, bind, hg, getS, pure, List.length_map]; rw [hlen]; omega)
   obtain ⟨t, ht⟩ : ∃ t, (if w.maxRetry < 0 then 100000 else w.maxRetry.toNat) = t + 1 := by
     by_cases h : w.maxRetry < 0
     · exact ⟨99999, by simp [h]⟩
     · have := hw.retry
       exact ⟨w.maxRetry.toNat - 1, by simp only [h, if_false]; omega⟩
   have hns : ¬ w.status = Status.stopped := by rw [hw.status]; decide
-  have hdat := adopted_dat u N m wid w s hw hlen hb hk hrun
-  obtain ⟨l, hl⟩ := notify_log u "spawn" (some s.k.nextPid) "-" (adopted wid w s)
-  refine ⟨(notify u "spawn" (some s.k.nextPid) "-" (adopted wid w s)).2, ?_, ?_, ?_⟩
+  have hdat := adopted_datL u N wid l w s hw hlen hb hk hrun
+  have hl := notify_single u { w with pids := w.pids ++ [s.k.nextPid] } "spawn" (some s.k.nextPid) "-" (adopted wid w s) rfl hw.uid hb
+  refine ⟨(notify u "spawn" (some s.k.nextPid) "-" (adopted wid w s)).2, ?_, ?_, ?_, ?_, ?_⟩
   · unfold spawnProcess
     simp only [bind]
     rw [hg]
@@ -293,6 +336,21 @@ theorem spawnProcess_dat (rec : Rec) (u N m : Nat) (s : State) (hd : Dat u N m s
     exact ⟨w', h1, h2, h3, h4, h5, h6⟩
   · rw [hl]
     exact ⟨rfl, rfl, rfl, rfl, rfl, rfl, rfl⟩
+  · rw [hl]
+    show s.k.nextPid < s.k.nextPid + 1 + (s.k.bump 1).behavAt.kids
+    omega
+  · intro w0 hw0
+    have : w0 = w := by rw [hws] at hw0; simpa using hw0.symm
+    subst this
+    refine ⟨wid, ?_⟩
+    rw [hl]
+    simp [adopted, hb]
+
+theorem spawnProcess_dat (rec : Rec) (u N m : Nat) (s : State) (hd : Dat u N m s) (hm : m < N) :
+    ∃ s', spawnProcess rec u s = (.started s.k.now, s') ∧ Dat u N (m + 1) s' ∧ SameCtl s s' := by
+  obtain ⟨l, hl, hdl⟩ := hd.datL
+  obtain ⟨s', h1, h2, h3, _, _⟩ := spawnProcess_datL rec u N l s hdl (by omega)
+  exact ⟨s', h1, h2.snoc_dat hl, h3⟩
 
 /-- arming the frame just pushed touches no other frame when ids are fresh -/
 theorem arm_fresh (fs : List Frame) (f : Frame) (h : ∀ g ∈ fs, g.fid ≠ f.fid) :
@@ -316,13 +374,15 @@ theorem awaitSleep_eq (ms : Nat) (k : Kont) (wt : Waiter) (s : State) :
 
 /-- **one round of `spawn_processes`**: one more running worker, one parked (armed) frame holding the
     rest of the loop, one timer that wakes it; nothing else of the control state moves -/
-theorem spawnLoop_dat (rec : Rec) (u N m r : Nat) (wt : Waiter) (s : State) (hd : Dat u N m s) (hm : m < N)
-    (hfresh : ∀ g ∈ s.frames, g.fid ≠ s.nextId) :
-    ∃ s' dl, spawnLoop rec u (r + 1) wt s = ((), s') ∧ Dat u N (m + 1) s' ∧
+theorem spawnLoop_datL (rec : Rec) (u N r : Nat) (l : List Nat) (wt : Waiter) (s : State) (hd : DatL u N l s)
+    (hm : l.length < N) (hfresh : ∀ g ∈ s.frames, g.fid ≠ s.nextId) :
+    ∃ s' dl, spawnLoop rec u (r + 1) wt s = ((), s') ∧ DatL u N (l ++ [s.k.nextPid]) s' ∧
       s'.frames = s.frames ++ [{ fid := s.nextId, k := .spawnLoop u r, parent := wt, armed := true }] ∧
       s'.sleepers = s.sleepers ++ [{ sid := s.nextId + 1, deadline := dl, waiter := .frame s.nextId 0 }] ∧
-      s'.nextId = s.nextId + 2 ∧ s'.tops = s.tops ∧ s'.ready = s.ready ∧ s'.a = s.a ∧ s'.doneVals = s.doneVals := by
-  obtain ⟨s1, hsp, hd1, hc⟩ := spawnProcess_dat rec u N m s hd hm
+      s'.nextId = s.nextId + 2 ∧ s'.tops = s.tops ∧ s'.ready = s.ready ∧ s'.a = s.a ∧ s'.doneVals = s.doneVals ∧
+      s.k.nextPid < s'.k.nextPid ∧
+      ∀ w, s.ws = [w] → ∃ wid, s'.log = s.log ++ (Obs.spawn s.k.nextPid w.name wid :: evs s.a w.name "spawn" (some s.k.nextPid) "-") := by
+  obtain ⟨s1, hsp, hd1, hc, hnp, hlog⟩ := spawnProcess_datL rec u N l s hd hm
   obtain ⟨w1, hws1, hw1, hlen1, hb1, hk1, hrun1⟩ := hd1
   have hsl : spawnLoop rec u (r + 1) wt s =
       awaitSleep ((getW u s1).1.warmup - (s1.k.now - s.k.now)) (.spawnLoop u r) wt s1 := by
@@ -331,7 +391,7 @@ theorem spawnLoop_dat (rec : Rec) (u N m r : Nat) (wt : Waiter) (s : State) (hd 
     rw [hsp]
     rfl
   rw [hsl, awaitSleep_eq]
-  refine ⟨_, s1.k.now + ((getW u s1).1.warmup - (s1.k.now - s.k.now)), rfl, ?_, ?_, ?_, ?_, ?_, ?_, ?_, ?_⟩
+  refine ⟨_, s1.k.now + ((getW u s1).1.warmup - (s1.k.now - s.k.now)), rfl, ?_, ?_, ?_, ?_, ?_, ?_, ?_, ?_, hnp, hlog⟩
   · exact ⟨w1, hws1, hw1, hlen1, hb1, hk1, hrun1⟩
   · simp only [hc.frames, hc.nextId]
     exact arm_fresh s.frames { fid := s.nextId, k := .spawnLoop u r, parent := wt } hfresh
@@ -341,6 +401,16 @@ theorem spawnLoop_dat (rec : Rec) (u N m r : Nat) (wt : Waiter) (s : State) (hd 
   · exact hc.ready
   · exact hc.a
   · exact hc.doneVals
+
+theorem spawnLoop_dat (rec : Rec) (u N m r : Nat) (wt : Waiter) (s : State) (hd : Dat u N m s) (hm : m < N)
+    (hfresh : ∀ g ∈ s.frames, g.fid ≠ s.nextId) :
+    ∃ s' dl, spawnLoop rec u (r + 1) wt s = ((), s') ∧ Dat u N (m + 1) s' ∧
+      s'.frames = s.frames ++ [{ fid := s.nextId, k := .spawnLoop u r, parent := wt, armed := true }] ∧
+      s'.sleepers = s.sleepers ++ [{ sid := s.nextId + 1, deadline := dl, waiter := .frame s.nextId 0 }] ∧
+      s'.nextId = s.nextId + 2 ∧ s'.tops = s.tops ∧ s'.ready = s.ready ∧ s'.a = s.a ∧ s'.doneVals = s.doneVals := by
+  obtain ⟨l, hl, hdl⟩ := hd.datL
+  obtain ⟨s', dl, h1, h2, h3, h4, h5, h6, h7, h8, h9, _, _⟩ := spawnLoop_datL rec u N r l wt s hdl (by omega) hfresh
+  exact ⟨s', dl, h1, h2.snoc_dat hl, h3, h4, h5, h6, h7, h8, h9⟩
 
 /-! ## Part 3: the check, the timers -/
 
@@ -423,6 +493,14 @@ theorem Dat.of_kernel {u N m : Nat} {s t : State} (h : Dat u N m s) (hk : t.k.St
   obtain ⟨p, hf, hr⟩ := h6 pid hpid
   exact ⟨p, by unfold Kernel.find at hf ⊢; rw [hp]; exact hf, hr⟩
 
+theorem DatL.of_kernel {u N : Nat} {l : List Nat} {s t : State} (h : DatL u N l s) (hk : t.k.Still)
+    (hp : t.k.procs = s.k.procs) (hws : t.ws = s.ws) (hb : t.blocked = s.blocked) : DatL u N l t := by
+  obtain ⟨w, h1, h2, h3, h4, _, h6⟩ := h
+  refine ⟨w, by rw [hws, h1], h2, h3, by rw [hb, h4], hk, ?_⟩
+  intro pid hpid
+  obtain ⟨p, hf, hr⟩ := h6 pid hpid
+  exact ⟨p, by unfold Kernel.find at hf ⊢; rw [hp]; exact hf, hr⟩
+
 /-- the first loop of `manage_processes` when every listed worker runs: two status reads each -/
 theorem manageLoop_still (u : Nat) (l : List Nat) (s : State) (hk : s.k.Still)
     (hrun : ∀ pid ∈ l, ∃ p, s.k.find pid = some p ∧ p.st = .run) :
@@ -462,23 +540,27 @@ theorem spawnProcesses_loop (rec : Rec) (u N m : Nat) (w : Watcher) (wt : Waiter
 
 /-- **`manage_processes` with workers missing**: its continuation is parked (armed) behind
     `spawn_processes`, which spawns the first missing worker and parks on its timer -/
-theorem manageProcesses_dat (n u N m : Nat) (wt : Waiter) (s : State) (hd : Dat u N m s) (hm : m < N)
+theorem manageProcesses_datL (n u N : Nat) (l : List Nat) (wt : Waiter) (s : State) (hd : DatL u N l s) (hm : l.length < N)
     (hfresh : ∀ g ∈ s.frames, g.fid < s.nextId) :
-    ∃ s' dl, manageProcesses (exec (n + 1)) u wt s = ((), s') ∧ Dat u N (m + 1) s' ∧
+    ∃ s' dl, manageProcesses (exec (n + 1)) u wt s = ((), s') ∧ DatL u N (l ++ [s.k.nextPid]) s' ∧
       s'.frames = s.frames ++ [
         { fid := s.nextId, k := .manageTail u, parent := wt, armed := true },
-        { fid := s.nextId + 1, k := .spawnLoop u (N - m - 1), parent := .frame s.nextId 0, armed := true }] ∧
+        { fid := s.nextId + 1, k := .spawnLoop u (N - l.length - 1), parent := .frame s.nextId 0, armed := true }] ∧
       s'.sleepers = s.sleepers ++ [{ sid := s.nextId + 2, deadline := dl, waiter := .frame (s.nextId + 1) 0 }] ∧
-      s'.nextId = s.nextId + 3 ∧ s'.tops = s.tops ∧ s'.ready = s.ready ∧ s'.a = s.a ∧ s'.doneVals = s.doneVals := by
+      s'.nextId = s.nextId + 3 ∧ s'.tops = s.tops ∧ s'.ready = s.ready ∧ s'.a = s.a ∧ s'.doneVals = s.doneVals ∧
+      s.k.nextPid < s'.k.nextPid ∧
+      ∀ w, s.ws = [w] → ∃ wid, s'.log = s.log ++ (Obs.spawn s.k.nextPid w.name wid :: evs s.a w.name "spawn" (some s.k.nextPid) "-") := by
   obtain ⟨w, hws, hw, hlen, hb, hk, hrun⟩ := hd
-  have hd' : Dat u N m s := ⟨w, hws, hw, hlen, hb, hk, hrun⟩
+  have hd' : DatL u N l s := ⟨w, hws, hw, hlen, hb, hk, hrun⟩
+  have hrun' : ∀ pid ∈ w.pids, ∃ p, s.k.find pid = some p ∧ p.st = .run := by rw [hlen]; exact hrun
+  have hlen' : w.pids.length = l.length := by rw [hlen]
   -- after the status loop
   let s1 := s.bump (2 * w.pids.length)
-  have hd1 : Dat u N m s1 := hd'.of_kernel (hk.bump _) rfl rfl rfl
+  have hd1 : DatL u N l s1 := hd'.of_kernel (hk.bump _) rfl rfl rfl
   -- the frame of `manage_processes`' continuation
   let s2 : State := { s1 with frames := s1.frames ++ [{ fid := s.nextId, k := .manageTail u, parent := wt }],
                               nextId := s.nextId + 1 }
-  have hd2 : Dat u N m s2 := hd1.of_kernel (hk.bump _) rfl rfl rfl
+  have hd2 : DatL u N l s2 := hd1.of_kernel (hk.bump _) rfl rfl rfl
   have hfresh2 : ∀ g ∈ s2.frames, g.fid ≠ s2.nextId := by
     intro g hg
     simp only [s2, s1, State.bump, List.mem_append, List.mem_cons, List.mem_nil_iff, or_false] at hg
@@ -486,15 +568,15 @@ theorem manageProcesses_dat (n u N m : Nat) (wt : Waiter) (s : State) (hd : Dat 
     rcases hg with hg | rfl
     · have := hfresh g hg; omega
     · simp
-  obtain ⟨s3, dl, hloop, hd3, hf3, hsl3, hn3, ht3, hr3, ha3, hdv3⟩ :=
-    spawnLoop_dat (exec n) u N m (N - m - 1) (.frame s.nextId 0) s2 hd2 hm hfresh2
-  refine ⟨(armFrame s.nextId s3).2, dl, ?_, ?_, ?_, ?_, ?_, ?_, ?_, ?_, ?_⟩
+  obtain ⟨s3, dl, hloop, hd3, hf3, hsl3, hn3, ht3, hr3, ha3, hdv3, hnp3, hlog3⟩ :=
+    spawnLoop_datL (exec n) u N (N - l.length - 1) l (.frame s.nextId 0) s2 hd2 hm hfresh2
+  refine ⟨(armFrame s.nextId s3).2, dl, ?_, ?_, ?_, ?_, ?_, ?_, ?_, ?_, ?_, ?_, ?_⟩
   · unfold manageProcesses
     simp only [bind]
     rw [getW_single u w s hws hw.uid]
     have hns : ¬ w.status = Status.stopped := by rw [hw.status]; decide
     erw [if_neg hns]
-    have hl := manageLoop_still u w.pids s hk hrun
+    have hl := manageLoop_still u w.pids s hk hrun'
     simp only [bind] at hl
     erw [hl]
     have hage : ¬ (w.maxAge > 0) := by rw [hw.maxAge]; decide
@@ -504,7 +586,7 @@ theorem manageProcesses_dat (n u N m : Nat) (wt : Waiter) (s : State) (hd : Dat 
     simp only [bind]
     rw [getW_single u w s1 hws hw.uid]
     have hlt : (decide ((w.pids.length : Int) < w.np) && decide (w.status ≠ Status.stopping)) = true := by
-      rw [hw.np, hw.status, hlen]
+      rw [hw.np, hw.status, hlen']
       simp
       omega
     simp only [hlt, if_true, hw.respawn]
@@ -512,8 +594,8 @@ theorem manageProcesses_dat (n u N m : Nat) (wt : Waiter) (s : State) (hd : Dat 
     show armFrame s1.nextId (exec (n + 1) (.call (.spawnProcesses u) (.frame s1.nextId 0)) s2).2 = _
     rw [exec_call n _ _ s2 hb]
     simp only [runCall]
-    rw [spawnProcesses_loop (exec n) u N m w _ s2 hws hw hlen hm]
-    show armFrame s.nextId (spawnLoop (exec n) u (N - m - 1 + 1) (.frame s.nextId 0) s2).2 = _
+    rw [spawnProcesses_loop (exec n) u N l.length w _ s2 hws hw hlen' hm]
+    show armFrame s.nextId (spawnLoop (exec n) u (N - l.length - 1 + 1) (.frame s.nextId 0) s2).2 = _
     rw [hloop]
   · obtain ⟨w3, a1, a2, a3, a4, a5, a6⟩ := hd3
     exact ⟨w3, a1, a2, a3, a4, a5, a6⟩
@@ -536,6 +618,21 @@ theorem manageProcesses_dat (n u N m : Nat) (wt : Waiter) (s : State) (hd : Dat 
   · show s3.ready = _; rw [hr3]; rfl
   · show s3.a = _; rw [ha3]; rfl
   · show s3.doneVals = _; rw [hdv3]; rfl
+  · exact hnp3
+  · intro w0 hw0
+    exact hlog3 w0 hw0
+
+theorem manageProcesses_dat (n u N m : Nat) (wt : Waiter) (s : State) (hd : Dat u N m s) (hm : m < N)
+    (hfresh : ∀ g ∈ s.frames, g.fid < s.nextId) :
+    ∃ s' dl, manageProcesses (exec (n + 1)) u wt s = ((), s') ∧ Dat u N (m + 1) s' ∧
+      s'.frames = s.frames ++ [
+        { fid := s.nextId, k := .manageTail u, parent := wt, armed := true },
+        { fid := s.nextId + 1, k := .spawnLoop u (N - m - 1), parent := .frame s.nextId 0, armed := true }] ∧
+      s'.sleepers = s.sleepers ++ [{ sid := s.nextId + 2, deadline := dl, waiter := .frame (s.nextId + 1) 0 }] ∧
+      s'.nextId = s.nextId + 3 ∧ s'.tops = s.tops ∧ s'.ready = s.ready ∧ s'.a = s.a ∧ s'.doneVals = s.doneVals := by
+  obtain ⟨l, hl, hdl⟩ := hd.datL
+  obtain ⟨s', dl, h1, h2, h3, h4, h5, h6, h7, h8, h9, _, _⟩ := manageProcesses_datL n u N l wt s hdl (by omega) hfresh
+  exact ⟨s', dl, h1, h2.snoc_dat hl, by rw [h3, hl], h4, h5, h6, h7, h8, h9⟩
 
 
 theorem iterWatchers_single (r : Bool) (u : Nat) (w : Watcher) (s : State) (hws : s.ws = [w]) (hu : w.uid = u)
@@ -554,6 +651,19 @@ theorem manageWatchers_eq (rec : Rec) (u N : Nat) (w : Watcher) (wt : Waiter) (s
   simp only
   rw [iterWatchers_single true u w { s with k := s.k.bump 1 } hws hw.uid hwat]
   simp [getS, hws, hw.uid, hw.onDemand]
+
+/-- `manage_watchers` for one registered watcher, whatever `Arbiter.reap_processes` did (`s1`) -/
+theorem manageWatchers_eq_gen (rec : Rec) (u : Nat) (w1 : Watcher) (wt : Waiter) (s s1 : State)
+    (hstp : s.a.stopping = false) (hreap : arbReapProcesses s = ((), s1)) (hws1 : s1.ws = [w1]) (hu : w1.uid = u)
+    (hod : w1.onDemand = false) (hwat : s1.a.watchers = [u]) :
+    manageWatchers rec wt s = awaitMulti rec [.manageProcesses u] (.manageWatchersTail false) wt s1 := by
+  unfold manageWatchers
+  simp only [bind, getA]
+  erw [if_neg (by simp [hstp])]
+  rw [hreap]
+  simp only
+  rw [iterWatchers_single true u w1 s1 hws1 hu hwat]
+  simp [getS, hws1, hu, hod]
 
 theorem stepM_eq (op : Op) (s : State) (hb : s.blocked = false) :
     stepM op s = stepTail (stepOp op (updK Kernel.beginStep s).2).2 := by
@@ -647,30 +757,44 @@ theorem exec_call_mk (n : Nat) (c : Call) (w : Waiter) (k : Kernel) (a : Arbiter
       runCall (exec n) c w ⟨k, a, objs, ws, frames, sleepers, tops, rd, dv, nid, log, false⟩ :=
   exec_call n c w _ rfl
 
-/-- **the periodic check with workers missing**: it reaps nothing, looks at every worker, spawns the
-    first missing one and parks: `manage_watchers → gen.multi → manage_processes → spawn_processes`,
-    one timer, the slot taken -/
-theorem check_parks (u N m : Nat) (s : State) (hi : Idle u s) (hd : Dat u N m s) (hm : m < N) :
-    Parked u s.nextId (s.nextId + 4) (N - m - 1) (step s .check) ∧ Dat u N (m + 1) (step s .check) := by
-  obtain ⟨w, hws, hw, hlen, hb, hk, hrun⟩ := hd
+/-- the state in which the body of `manage_watchers` starts when the check finds the daemon idle: the slot
+    taken, the future of the check created -/
+def checkEntry (s : State) : State :=
+  { s with k := s.k.beginStep, a := { s.a with slot := some "manage_watchers" },
+           tops := [{ tid := s.nextId, cbs := [.release] }], doneVals := [], nextId := s.nextId + 1 }
+
+/-- **the periodic check with workers missing, after whatever `Arbiter.reap_processes` did** (it may change the
+    kernel, the `Process` objects, the watcher and the log: `K O w1 L1`): `manage_processes` looks at every
+    worker, spawns the first missing one and parks: `manage_watchers → gen.multi → manage_processes →
+    spawn_processes`, one timer, the slot taken -/
+theorem check_parks_gen (u N : Nat) (l : List Nat) (s : State) (hi : Idle u s) (hb : s.blocked = false)
+    (K : Kernel) (O : List PObj) (w1 : Watcher) (L1 : List Obs)
+    (hreap : arbReapProcesses (checkEntry s) = ((), { checkEntry s with k := K, objs := O, ws := [w1], log := L1 }))
+    (hd : DatL u N l { checkEntry s with k := K, objs := O, ws := [w1], log := L1 }) (hm : l.length < N) :
+    Parked u s.nextId (s.nextId + 4) (N - l.length - 1) (step s .check) ∧
+    DatL u N (l ++ [K.nextPid]) (step s .check) ∧ K.nextPid < (step s .check).k.nextPid ∧
+    ∃ wid, (step s .check).log = L1 ++ (Obs.spawn K.nextPid w1.name wid :: evs s.a w1.name "spawn" (some K.nextPid) "-") := by
   obtain ⟨hfr, hsl, htops, hrd, hslot, hls, hstp, hrst, hwat⟩ := hi
   obtain ⟨k, a, objs, ws, frames, sleepers, tops, ready, dv, i, log, blocked⟩ := s
-  simp only at hws hb hk hrun hfr hsl htops hrd hslot hls hstp hrst hwat
-  subst hws hb hfr hsl htops hrd
+  simp only at hb hfr hsl htops hrd hslot hls hstp hrst hwat
+  subst hb hfr hsl htops hrd
+  simp only [checkEntry] at hreap hd
+  have hw : WOk u N w1 := by obtain ⟨w, h1, h2, _⟩ := hd; simp only [List.cons.injEq, and_true] at h1; exact h1 ▸ h2
   -- the state in which `manage_processes` of the watcher starts
-  let S3 : State := ⟨k.beginStep.bump 1, { a with slot := some "manage_watchers" }, objs, [w],
+  let S3 : State := ⟨K, { a with slot := some "manage_watchers" }, O, [w1],
     [{ fid := i + 1, k := .manageWatchersTail false, parent := .top i },
      { fid := i + 2, k := .multi 1 [], parent := .frame (i + 1) 0 }], [],
-    [{ tid := i, cbs := [.release] }], [], [], i + 3, log, false⟩
-  have hd3 : Dat u N m S3 := ⟨w, rfl, hw, hlen, rfl, hk.beginStep.bump 1, hrun⟩
+    [{ tid := i, cbs := [.release] }], [], [], i + 3, L1, false⟩
+  have hd3 : DatL u N l S3 := hd.of_kernel (by obtain ⟨_, _, _, _, _, h, _⟩ := hd; exact h) rfl rfl rfl
   have hfresh3 : ∀ g ∈ S3.frames, g.fid < S3.nextId := by
     intro g hg
     simp only [S3, List.mem_cons, List.mem_nil_iff, or_false] at hg
     show g.fid < i + 3
     rcases hg with rfl | rfl <;> simp
-  obtain ⟨s', dl, hmp, hd', hf', hsl', hn', ht', hr', ha', hdv'⟩ :=
-    manageProcesses_dat 99997 u N m (.frame (i + 2) 0) S3 hd3 hm hfresh3
-  have hop : stepOp .check (updK Kernel.beginStep (⟨k, a, objs, [w], [], [], [], [], dv, i, log, false⟩ : State)).2 =
+  obtain ⟨s', dl, hmp, hd', hf', hsl', hn', ht', hr', ha', hdv', hnp', hlog'⟩ :=
+    manageProcesses_datL 99997 u N l (.frame (i + 2) 0) S3 hd3 hm hfresh3
+  obtain ⟨wid, hlogw⟩ := hlog' w1 rfl
+  have hop : stepOp .check (updK Kernel.beginStep (⟨k, a, objs, ws, [], [], [], [], dv, i, log, false⟩ : State)).2 =
       ((), (topAddCb i .watch (armTop i (armFrame (i + 1) (armFrame (i + 2) s').2).2).2).2) := by
     simp only [stepOp, bind, clearDone, modS, updK, runK]
     rw [syncCoroutine_free _ _ _ hrst hslot]
@@ -678,8 +802,8 @@ theorem check_parks (u N m : Nat) (s : State) (hi : Idle u s) (hd : Dat u N m s)
     have e1 : (100000 : Nat) = 99999 + 1 := rfl
     have e2 : (99999 : Nat) = 99998 + 1 := rfl
     rw [e1, exec_call_mk]
-    simp only [runCall]
-    rw [manageWatchers_eq (exec 99999) u N w _ _ rfl hw rfl hk.beginStep hstp hwat, awaitMulti_single]
+    simp only [runCall, List.nil_append]
+    rw [manageWatchers_eq_gen (exec 99999) u w1 _ _ _ hstp hreap rfl hw.uid hw.onDemand hwat, awaitMulti_single]
     simp only [List.nil_append]
     rw [e2, exec_call_mk]
     simp only [runCall]
@@ -697,13 +821,13 @@ theorem check_parks (u N m : Nat) (s : State) (hi : Idle u s) (hd : Dat u N m s)
         { fid := i + 1, k := .manageWatchersTail false, parent := .top i, armed := true },
         { fid := i + 2, k := .multi 1 [], parent := .frame (i + 1) 0, armed := true },
         { fid := i + 3, k := .manageTail u, parent := .frame (i + 2) 0, armed := true },
-        { fid := i + 4, k := .spawnLoop u (N - m - 1), parent := .frame (i + 3) 0, armed := true }] ∧
+        { fid := i + 4, k := .spawnLoop u (N - l.length - 1), parent := .frame (i + 3) 0, armed := true }] ∧
       F.sleepers = [{ sid := i + 5, deadline := dl, waiter := .frame (i + 4) 0 }] ∧
       F.tops = [{ tid := i, cbs := [.release, .watch], armed := true }] ∧ F.ready = [] ∧ F.nextId = i + 6 ∧
-      F.a = { a with slot := some "manage_watchers" } ∧ Dat u N (m + 1) F := by
+      F.a = { a with slot := some "manage_watchers" } ∧ DatL u N (l ++ [K.nextPid]) F ∧ F.k = s'.k ∧ F.log = s'.log := by
     intro F hF
     subst hF
-    refine ⟨?_, ?_, ?_, ?_, ?_, ?_, ?_⟩
+    refine ⟨?_, ?_, ?_, ?_, ?_, ?_, ?_, rfl, rfl⟩
     · simp [topAddCb, armTop, armFrame, modS, hf', S3]
     · simp [topAddCb, armTop, armFrame, modS, hsl', S3]
     · simp [topAddCb, armTop, armFrame, modS, ht', S3]
@@ -711,32 +835,57 @@ theorem check_parks (u N m : Nat) (s : State) (hi : Idle u s) (hd : Dat u N m s)
     · simp [topAddCb, armTop, armFrame, modS, hn', S3]
     · simp [topAddCb, armTop, armFrame, modS, ha', S3]
     · exact hd'.of_kernel (by obtain ⟨_, _, _, _, _, h, _⟩ := hd'; exact h) rfl rfl rfl
-  obtain ⟨g1, g2, g3, g4, g5, g6, g7⟩ := hF _ rfl
-  have hstep : stepM .check (⟨k, a, objs, [w], [], [], [], [], dv, i, log, false⟩ : State) =
+  obtain ⟨g1, g2, g3, g4, g5, g6, g7, g8, g9⟩ := hF _ rfl
+  have hstep : stepM .check (⟨k, a, objs, ws, [], [], [], [], dv, i, log, false⟩ : State) =
       ((), (topAddCb i .watch (armTop i (armFrame (i + 1) (armFrame (i + 2) s').2).2).2).2) := by
     rw [stepM_eq _ _ rfl, hop]
     have hs : settle 100000 (topAddCb i .watch (armTop i (armFrame (i + 1) (armFrame (i + 2) s').2).2).2).2 =
         ((), (topAddCb i .watch (armTop i (armFrame (i + 1) (armFrame (i + 2) s').2).2).2).2) :=
       settle_nil 99999 _ g4
     rw [stepTail_eq _ (by rw [hs, g6]; exact hls), hs]
-  have hres : step (⟨k, a, objs, [w], [], [], [], [], dv, i, log, false⟩ : State) .check =
+  have hres : step (⟨k, a, objs, ws, [], [], [], [], dv, i, log, false⟩ : State) .check =
       (topAddCb i .watch (armTop i (armFrame (i + 1) (armFrame (i + 2) s').2).2).2).2 := by
     unfold step; rw [hstep]
   rw [hres]
-  refine ⟨⟨g1, ⟨dl, g2⟩, g3, g4, g5, Nat.le_refl _, ?_, ?_, ?_, ?_, ?_⟩, g7⟩
+  refine ⟨⟨g1, ⟨dl, g2⟩, g3, g4, g5, Nat.le_refl _, ?_, ?_, ?_, ?_, ?_⟩, g7, ?_, wid, ?_⟩
   · rw [g6]
   · rw [g6]; exact hls
   · rw [g6]; exact hstp
   · rw [g6]; exact hrst
   · rw [g6]; exact hwat
+  · rw [g8]; exact hnp'
+  · rw [g9, hlogw]; rfl
+
+/-- **the periodic check with workers missing**: it reaps nothing, looks at every worker, spawns the
+    first missing one and parks: `manage_watchers → gen.multi → manage_processes → spawn_processes`,
+    one timer, the slot taken -/
+theorem check_parksL (u N : Nat) (l : List Nat) (s : State) (hi : Idle u s) (hd : DatL u N l s) (hm : l.length < N) :
+    Parked u s.nextId (s.nextId + 4) (N - l.length - 1) (step s .check) ∧
+    DatL u N (l ++ [s.k.nextPid]) (step s .check) ∧ s.k.nextPid < (step s .check).k.nextPid := by
+  obtain ⟨w, hws, hw, hlen, hb, hk, hrun⟩ := hd
+  have hreap : arbReapProcesses (checkEntry s) =
+      ((), { checkEntry s with k := s.k.beginStep.bump 1, objs := s.objs, ws := [w], log := s.log }) := by
+    rw [arbReapProcesses_still (checkEntry s) hb hk.beginStep]
+    simp only [checkEntry, hws]
+  obtain ⟨h1, h2, h3, _⟩ := check_parks_gen u N l s hi hb (s.k.beginStep.bump 1) s.objs w s.log hreap
+    ⟨w, rfl, hw, hlen, hb, hk.beginStep.bump 1, hrun⟩ hm
+  exact ⟨h1, h2, h3⟩
+
+theorem check_parks (u N m : Nat) (s : State) (hi : Idle u s) (hd : Dat u N m s) (hm : m < N) :
+    Parked u s.nextId (s.nextId + 4) (N - m - 1) (step s .check) ∧ Dat u N (m + 1) (step s .check) := by
+  obtain ⟨l, hl, hdl⟩ := hd.datL
+  obtain ⟨h1, h2, _⟩ := check_parksL u N l s hi hdl (by omega)
+  exact ⟨hl ▸ h1, h2.snoc_dat hl⟩
 
 
 theorem earliest_single (sl : Sleeper) : earliest [sl] = some sl := rfl
 
 /-- **a timer of the parked loop fires while workers are still missing**: one more worker is spawned,
     the loop parks again on a new timer -/
-theorem wake_spawns (u N m i j r : Nat) (s : State) (hp : Parked u i j (r + 1) s) (hd : Dat u N m s) (hm : m < N) :
-    Parked u i (j + 2) r (step s .wake) ∧ Dat u N (m + 1) (step s .wake) := by
+theorem wake_spawnsL (u N i j r : Nat) (l : List Nat) (s : State) (hp : Parked u i j (r + 1) s) (hd : DatL u N l s)
+    (hm : l.length < N) :
+    Parked u i (j + 2) r (step s .wake) ∧ DatL u N (l ++ [s.k.nextPid]) (step s .wake) ∧
+    s.k.nextPid < (step s .wake).k.nextPid := by
   obtain ⟨dl, hsl⟩ := hp.sleepers
   have hb : s.blocked = false := by obtain ⟨w, _, _, _, hb, _⟩ := hd; exact hb
   have hk : s.k.Still := by obtain ⟨w, _, _, _, _, hk, _⟩ := hd; exact hk
@@ -753,15 +902,15 @@ theorem wake_spawns (u N m i j r : Nat) (s : State) (hp : Parked u i j (r + 1) s
       { fid := i + 2, k := .multi 1 [], parent := .frame (i + 1) 0, armed := true },
       { fid := i + 3, k := .manageTail u, parent := .frame (i + 2) 0, armed := true }],
     ready := [] }
-  have hd4 : Dat u N m s4 := hd.of_kernel (hk.beginStep.setNow_still _) rfl rfl rfl
+  have hd4 : DatL u N l s4 := hd.of_kernel (hk.beginStep.setNow_still _) rfl rfl rfl
   have hfresh : ∀ g ∈ s4.frames, g.fid ≠ s4.nextId := by
     intro g hg
     simp only [s4, List.mem_cons, List.mem_nil_iff, or_false] at hg
     show g.fid ≠ s.nextId
     rw [hp.nextId]
     rcases hg with rfl | rfl | rfl <;> simp <;> omega
-  obtain ⟨s5, dl5, hloop, hd5, hf5, hsl5, hn5, ht5, hr5, ha5, hdv5⟩ :=
-    spawnLoop_dat (exec 99999) u N m r (.frame (i + 3) 0) s4 hd4 hm hfresh
+  obtain ⟨s5, dl5, hloop, hd5, hf5, hsl5, hn5, ht5, hr5, ha5, hdv5, hnp5, _⟩ :=
+    spawnLoop_datL (exec 99999) u N r l (.frame (i + 3) 0) s4 hd4 hm hfresh
   -- the step
   have hstep : stepM .wake s = ((), s5) := by
     rw [stepM_eq _ _ hb]
@@ -786,7 +935,7 @@ theorem wake_spawns (u N m i j r : Nat) (s : State) (hp : Parked u i j (r + 1) s
     rw [stepTail_eq _ (by rw [hset, ha5]; exact hp.loopStop), hset]
   have hres : step s .wake = s5 := by unfold step; rw [hstep]
   rw [hres]
-  refine ⟨⟨?_, ⟨dl5, ?_⟩, ?_, ?_, ?_, by omega, ?_, ?_, ?_, ?_, ?_⟩, hd5⟩
+  refine ⟨⟨?_, ⟨dl5, ?_⟩, ?_, ?_, ?_, by omega, ?_, ?_, ?_, ?_, ?_⟩, hd5, hnp5⟩
   · rw [hf5]; simp only [s4, hp.nextId]; rfl
   · rw [hsl5]; simp only [s4, hp.nextId]; rfl
   · rw [ht5]; exact hp.tops
@@ -798,6 +947,12 @@ theorem wake_spawns (u N m i j r : Nat) (s : State) (hp : Parked u i j (r + 1) s
   · rw [ha5]; exact hp.restarting
   · rw [ha5]; exact hp.watchers
 
+
+theorem wake_spawns (u N m i j r : Nat) (s : State) (hp : Parked u i j (r + 1) s) (hd : Dat u N m s) (hm : m < N) :
+    Parked u i (j + 2) r (step s .wake) ∧ Dat u N (m + 1) (step s .wake) := by
+  obtain ⟨l, hl, hdl⟩ := hd.datL
+  obtain ⟨h1, h2, _⟩ := wake_spawnsL u N i j r l s hp hdl (by omega)
+  exact ⟨h1, h2.snoc_dat hl⟩
 
 theorem settle_cons_mk (n : Nat) (k : Kernel) (a : Arbiter) (objs : List PObj) (ws : List Watcher) (frames : List Frame)
     (sleepers : List Sleeper) (tops : List TopFut) (x : Ready) (rest : List Ready) (dv : List (Nat × Val)) (nid : Nat)
@@ -816,10 +971,12 @@ theorem exec_resume_mk (n : Nat) (kk : Kont) (v : Val) (w : Waiter) (k : Kernel)
 /-- **the last timer of the parked loop fires**: no worker is missing any more; the loop, `manage_processes`,
     the `gen.multi`, `manage_watchers` and the future of the check complete one after the other through
     the ready queue, the slot is released -/
-theorem wake_done (u N i j : Nat) (s : State) (hp : Parked u i j 0 s) (hd : Dat u N N s) :
-    Idle u (step s .wake) ∧ Dat u N N (step s .wake) := by
+theorem wake_doneL (u N i j : Nat) (l : List Nat) (s : State) (hp : Parked u i j 0 s) (hd : DatL u N l s) (hN : l.length = N) :
+    Idle u (step s .wake) ∧ DatL u N l (step s .wake) ∧ (step s .wake).k.nextPid = s.k.nextPid ∧
+    (step s .wake).log = s.log := by
   obtain ⟨dl, hsl⟩ := hp.sleepers
-  obtain ⟨w, hws, hw, hlen, hb, hk, hrun⟩ := hd
+  obtain ⟨w, hws, hw, hpl, hb, hk, hrun⟩ := hd
+  have hlen : w.pids.length = N := by rw [hpl, hN]
   have hj := hp.hj
   have h1 : ¬ i + 1 = j := by omega
   have h2 : ¬ i + 2 = j := by omega
@@ -914,10 +1071,16 @@ theorem wake_done (u N i j : Nat) (s : State) (hp : Parked u i j 0 s) (hd : Dat 
         (i, Val.unit) :: dv, nid, log, false⟩ := by
     unfold step; rw [hstep]
   rw [hres]
-  refine ⟨⟨rfl, rfl, rfl, rfl, rfl, hls, hstp, hrst, hwat⟩, w, rfl, hw, hlen, rfl, hk.beginStep.setNow_still _, ?_⟩
+  refine ⟨⟨rfl, rfl, rfl, rfl, rfl, hls, hstp, hrst, hwat⟩, ⟨w, rfl, hw, hpl, rfl, hk.beginStep.setNow_still _, ?_⟩, rfl, rfl⟩
   intro pid hpid
   obtain ⟨p, hf, hr⟩ := hrun pid hpid
   exact ⟨p, hf, hr⟩
+
+theorem wake_done (u N i j : Nat) (s : State) (hp : Parked u i j 0 s) (hd : Dat u N N s) :
+    Idle u (step s .wake) ∧ Dat u N N (step s .wake) := by
+  obtain ⟨l, hl, hdl⟩ := hd.datL
+  obtain ⟨h1, h2, _⟩ := wake_doneL u N i j l s hp hdl hl
+  exact ⟨h1, hl ▸ h2.dat⟩
 
 
 /-- `manage_processes` when nobody is missing (and nobody is in excess): only the status reads -/
@@ -947,58 +1110,112 @@ theorem manageProcesses_full (rec : Rec) (u N : Nat) (wt : Waiter) (s : State) (
   erw [if_neg hgt]
   rw [hlen]
 
-/-- **the periodic check when no worker is missing**: it completes within the step and changes
-    nothing but the kernel's call counter -/
-theorem check_idle (u N : Nat) (s : State) (hi : Idle u s) (hd : Dat u N N s) :
-    Idle u (step s .check) ∧ Dat u N N (step s .check) := by
-  obtain ⟨w, hws, hw, hlen, hb, hk, hrun⟩ := hd
+/-- **`manage_processes` of the only watcher returns while the check is still in its first, eager run**: the
+    `gen.multi` of `manage_watchers` has its only result, `manage_watchers` ends, its future completes and
+    releases the slot, all in place -/
+theorem unwind_check (n i : Nat) (K : Kernel) (a : Arbiter) (O : List PObj) (ws : List Watcher) (nid : Nat) (L : List Obs) :
+    deliver (exec (n + 2)) (.frame (i + 2) 0) .unit ⟨K, a, O, ws,
+        [{ fid := i + 1, k := .manageWatchersTail false, parent := .top i },
+         { fid := i + 2, k := .multi 1 [], parent := .frame (i + 1) 0 }], [],
+        [{ tid := i, cbs := [.release] }], [], [], nid, L, false⟩ =
+      ((), ⟨K, { a with slot := none }, O, ws, [], [], [], [], [(i, Val.unit)], nid, L, false⟩) := by
+  simp [deliver, bind, getS, removeFrame, modS]
+  have hmr : multiResult 1 [(0, Val.unit)] = .list [.unit] := rfl
+  rw [hmr, show n + 2 = (n + 1) + 1 from rfl, exec_resume_mk]
+  simp [runResume, deliver, bind, getS, removeFrame, modS]
+  rw [exec_resume_mk]
+  simp [runResume, manageWatchersTail, deliver, deliverTop, finishTop, deliverCbs, runTopCb, setSlot, bind, getS,
+    getA, modS, modA, pure]
+
+/-- **the periodic check that completes within its step, after whatever `Arbiter.reap_processes` did (`K O w1 L1`)
+    and whatever `manage_processes` did (`K2 O2 w2 L2`, `nid2`), provided the latter returned in place** (no
+    suspension: `hmp` says that its call, in the state the check has built, ran through to the release of the
+    slot): nothing is left in flight -/
+theorem check_done_gen (u : Nat) (s : State) (hi : Idle u s) (hb : s.blocked = false)
+    (K : Kernel) (O : List PObj) (w1 : Watcher) (L1 : List Obs) (hu : w1.uid = u) (hod : w1.onDemand = false)
+    (hreap : arbReapProcesses (checkEntry s) = ((), { checkEntry s with k := K, objs := O, ws := [w1], log := L1 }))
+    (K2 : Kernel) (O2 : List PObj) (w2 : Watcher) (L2 : List Obs) (nid2 : Nat)
+    (hmp : manageProcesses (exec 99998) u (.frame (s.nextId + 2) 0)
+        ⟨K, { s.a with slot := some "manage_watchers" }, O, [w1],
+          [{ fid := s.nextId + 1, k := .manageWatchersTail false, parent := .top s.nextId },
+           { fid := s.nextId + 2, k := .multi 1 [], parent := .frame (s.nextId + 1) 0 }], [],
+          [{ tid := s.nextId, cbs := [.release] }], [], [], s.nextId + 3, L1, false⟩ =
+      ((), ⟨K2, { s.a with slot := none }, O2, [w2], [], [], [], [], [(s.nextId, Val.unit)], nid2, L2, false⟩)) :
+    step s .check = ⟨K2, { s.a with slot := none }, O2, [w2], [], [], [], [], [(s.nextId, Val.unit)], nid2, L2, false⟩ := by
   obtain ⟨hfr, hsl, htops, hrd, hslot, hls, hstp, hrst, hwat⟩ := hi
   obtain ⟨k, a, objs, ws, frames, sleepers, tops, ready, dv, i, log, blocked⟩ := s
-  simp only at hws hb hk hrun hfr hsl htops hrd hslot hls hstp hrst hwat
-  subst hws hb hfr hsl htops hrd
-  have hstep : stepM .check (⟨k, a, objs, [w], [], [], [], [], dv, i, log, false⟩ : State) =
-      ((), ⟨k.beginStep.bump (1 + 2 * N), { a with slot := none }, objs, [w], [], [], [], [], [(i, Val.unit)], i + 3, log, false⟩) := by
+  simp only at hb hfr hsl htops hrd hslot hls hstp hrst hwat hmp
+  subst hb hfr hsl htops hrd
+  simp only [checkEntry] at hreap
+  have hstep : stepM .check (⟨k, a, objs, ws, [], [], [], [], dv, i, log, false⟩ : State) =
+      ((), ⟨K2, { a with slot := none }, O2, [w2], [], [], [], [], [(i, Val.unit)], nid2, L2, false⟩) := by
     rw [stepM_eq _ _ rfl]
-    have hop : stepOp .check (updK Kernel.beginStep (⟨k, a, objs, [w], [], [], [], [], dv, i, log, false⟩ : State)).2 =
-        ((), ⟨k.beginStep.bump (1 + 2 * N), { a with slot := none }, objs, [w], [], [], [],
-          [.topCb .watch .unit], [(i, Val.unit)], i + 3, log, false⟩) := by
+    have hop : stepOp .check (updK Kernel.beginStep (⟨k, a, objs, ws, [], [], [], [], dv, i, log, false⟩ : State)).2 =
+        ((), ⟨K2, { a with slot := none }, O2, [w2], [], [], [],
+          [.topCb .watch .unit], [(i, Val.unit)], nid2, L2, false⟩) := by
       simp only [stepOp, bind, clearDone, modS, updK, runK]
       rw [syncCoroutine_free _ _ _ hrst hslot]
       simp only [fuelDefault]
       have e1 : (100000 : Nat) = 99999 + 1 := rfl
       have e2 : (99999 : Nat) = 99998 + 1 := rfl
-      have e3 : (99998 : Nat) = 99997 + 1 := rfl
       rw [e1, exec_call_mk]
-      simp only [runCall]
-      rw [manageWatchers_eq (exec 99999) u N w _ _ rfl hw rfl hk.beginStep hstp hwat, awaitMulti_single]
+      simp only [runCall, List.nil_append]
+      rw [manageWatchers_eq_gen (exec 99999) u w1 _ _ _ hstp hreap rfl hu hod hwat, awaitMulti_single]
       simp only [List.nil_append]
       rw [e2, exec_call_mk]
       simp only [runCall]
-      rw [manageProcesses_full (exec 99998) u N _ _ ⟨w, rfl, hw, hlen, rfl, hk.beginStep.bump 1, hrun⟩]
-      simp [deliver, State.bump, bind, getS, removeFrame, modS]
-      have hmr : multiResult 1 [(0, Val.unit)] = .list [.unit] := rfl
-      rw [hmr, e3, exec_resume_mk]
-      simp [runResume, deliver, bind, getS, removeFrame, modS]
-      have e4 : (99997 : Nat) = 99996 + 1 := rfl
-      rw [e4, exec_resume_mk]
-      simp [runResume, manageWatchersTail, deliver, deliverTop, finishTop, deliverCbs, runTopCb, setSlot, bind, getS,
-        getA, modS, modA, pure, armFrame, armTop, addDoneCallback, enqueue, Kernel.bump_bump]
+      erw [hmp]
+      simp [bind, getS, modS, pure, armFrame, armTop, addDoneCallback, enqueue]
     rw [hop]
     have e1 : (100000 : Nat) = 99999 + 1 := rfl
     have e2 : (99999 : Nat) = 99998 + 1 := rfl
-    have hs : settle 100000 (⟨k.beginStep.bump (1 + 2 * N), { a with slot := none }, objs, [w], [], [], [],
-          [.topCb .watch .unit], [(i, Val.unit)], i + 3, log, false⟩ : State) =
-        ((), ⟨k.beginStep.bump (1 + 2 * N), { a with slot := none }, objs, [w], [], [], [], [], [(i, Val.unit)], i + 3, log, false⟩) := by
+    have hs : settle 100000 (⟨K2, { a with slot := none }, O2, [w2], [], [], [],
+          [.topCb .watch .unit], [(i, Val.unit)], nid2, L2, false⟩ : State) =
+        ((), ⟨K2, { a with slot := none }, O2, [w2], [], [], [], [], [(i, Val.unit)], nid2, L2, false⟩) := by
       rw [e1, settle_cons_mk]
       simp [runReady1, runTopCb, pure]
       rw [e2]
       exact settle_nil _ _ rfl
     rw [stepTail_eq _ (by rw [hs]; exact hls), hs]
-  have hres : step (⟨k, a, objs, [w], [], [], [], [], dv, i, log, false⟩ : State) .check =
-      ⟨k.beginStep.bump (1 + 2 * N), { a with slot := none }, objs, [w], [], [], [], [], [(i, Val.unit)], i + 3, log, false⟩ := by
-    unfold step; rw [hstep]
+  unfold step; rw [hstep]
+
+/-- **the periodic check when no worker is missing, after whatever `Arbiter.reap_processes` did**: it completes
+    within the step; besides what the reaping changed only the kernel's call counter moves -/
+theorem check_idle_gen (u N : Nat) (l : List Nat) (s : State) (hi : Idle u s) (hb : s.blocked = false)
+    (K : Kernel) (O : List PObj) (w1 : Watcher) (L1 : List Obs)
+    (hreap : arbReapProcesses (checkEntry s) = ((), { checkEntry s with k := K, objs := O, ws := [w1], log := L1 }))
+    (hd : DatL u N l { checkEntry s with k := K, objs := O, ws := [w1], log := L1 }) (hN : l.length = N) :
+    Idle u (step s .check) ∧ DatL u N l (step s .check) ∧ (step s .check).k.nextPid = K.nextPid ∧
+    (step s .check).log = L1 := by
+  obtain ⟨w, hws, hw, hpl, _, hk, hrun⟩ := hd
+  simp only [checkEntry] at hws hk hrun
+  have hww : w1 = w := by simpa using hws
+  subst hww
+  have hres := check_done_gen u s hi hb K O w1 L1 hw.uid hw.onDemand hreap (K.bump (2 * N)) O w1 L1 (s.nextId + 3) (by
+    rw [manageProcesses_full (exec 99998) u N _ _ ⟨w1, rfl, hw, by rw [hpl, hN], rfl, hk, by rw [hpl]; exact hrun⟩]
+    exact unwind_check 99996 s.nextId _ _ _ _ _ _)
   rw [hres]
-  exact ⟨⟨rfl, rfl, rfl, rfl, rfl, hls, hstp, hrst, hwat⟩, w, rfl, hw, hlen, rfl, hk.beginStep.bump _, hrun⟩
+  exact ⟨⟨rfl, rfl, rfl, rfl, rfl, hi.loopStop, hi.stopping, hi.restarting, hi.watchers⟩,
+    ⟨w1, rfl, hw, hpl, rfl, hk.bump _, hrun⟩, rfl, rfl⟩
+
+/-- **the periodic check when no worker is missing**: it completes within the step and changes
+    nothing but the kernel's call counter -/
+theorem check_idleL (u N : Nat) (l : List Nat) (s : State) (hi : Idle u s) (hd : DatL u N l s) (hN : l.length = N) :
+    Idle u (step s .check) ∧ DatL u N l (step s .check) ∧ (step s .check).k.nextPid = s.k.nextPid ∧
+    (step s .check).log = s.log := by
+  obtain ⟨w, hws, hw, hlen, hb, hk, hrun⟩ := hd
+  have hreap : arbReapProcesses (checkEntry s) =
+      ((), { checkEntry s with k := s.k.beginStep.bump 1, objs := s.objs, ws := [w], log := s.log }) := by
+    rw [arbReapProcesses_still (checkEntry s) hb hk.beginStep]
+    simp only [checkEntry, hws]
+  exact check_idle_gen u N l s hi hb (s.k.beginStep.bump 1) s.objs w s.log hreap
+    ⟨w, rfl, hw, hlen, hb, hk.beginStep.bump 1, hrun⟩ hN
+
+theorem check_idle (u N : Nat) (s : State) (hi : Idle u s) (hd : Dat u N N s) :
+    Idle u (step s .check) ∧ Dat u N N (step s .check) := by
+  obtain ⟨l, hl, hdl⟩ := hd.datL
+  obtain ⟨h1, h2, _⟩ := check_idleL u N l s hi hdl hl
+  exact ⟨h1, hl ▸ h2.dat⟩
 
 /-! ## Part 4: convergence -/
 
@@ -1047,5 +1264,64 @@ theorem checks_stay (u N : Nat) : ∀ (n : Nat) (s : State), Idle u s → Dat u 
     obtain ⟨hi', hd'⟩ := check_idle u N s hi hd
     rw [List.replicate_succ, run_cons]
     exact ih _ hi' hd'
+
+/-! ### the same with the list of pids tracked: the workers that were there are kept, the new ones are fresh -/
+
+theorem wakes_convergeL (u N i : Nat) : ∀ (r j : Nat) (l : List Nat) (s : State), Parked u i j r s → DatL u N l s →
+    l.length + r = N →
+    Idle u (run s (List.replicate (r + 1) .wake)) ∧
+    ∃ news, DatL u N (l ++ news) (run s (List.replicate (r + 1) .wake)) ∧ news.length = r ∧ ∀ p ∈ news, s.k.nextPid ≤ p := by
+  intro r
+  induction r with
+  | zero =>
+    intro j l s hp hd hmr
+    obtain ⟨h1, h2, _, _⟩ := wake_doneL u N i j l s hp hd (by omega)
+    exact ⟨h1, [], by simpa [run] using h2, rfl, fun p hp => by cases hp⟩
+  | succ r ih =>
+    intro j l s hp hd hmr
+    obtain ⟨hp', hd', hnp⟩ := wake_spawnsL u N i j r l s hp hd (by omega)
+    rw [List.replicate_succ, run_cons]
+    obtain ⟨h1, news, h2, h3, h4⟩ := ih (j + 2) (l ++ [s.k.nextPid]) _ hp' hd' (by simp; omega)
+    refine ⟨h1, s.k.nextPid :: news, by simpa using h2, by simp [h3], ?_⟩
+    intro p hp
+    rcases List.mem_cons.mp hp with rfl | hp
+    · exact Nat.le_refl _
+    · have := h4 p hp; omega
+
+/-- **convergence, pids tracked**: the workers listed before are all kept, in their order, and exactly
+    `N - l.length` fresh pids are appended -/
+theorem check_convergesL (u N : Nat) (l : List Nat) (s : State) (hi : Idle u s) (hd : DatL u N l s) (hm : l.length ≤ N) :
+    Idle u (run s (.check :: List.replicate (N - l.length) .wake)) ∧
+    ∃ news, DatL u N (l ++ news) (run s (.check :: List.replicate (N - l.length) .wake)) ∧
+      news.length = N - l.length ∧ ∀ p ∈ news, s.k.nextPid ≤ p := by
+  rw [run_cons]
+  by_cases hlt : l.length < N
+  · obtain ⟨hp, hd', hnp⟩ := check_parksL u N l s hi hd hlt
+    have hrep : N - l.length = (N - l.length - 1) + 1 := by omega
+    rw [hrep]
+    obtain ⟨h1, news, h2, h3, h4⟩ := wakes_convergeL u N s.nextId (N - l.length - 1) _ (l ++ [s.k.nextPid]) _ hp hd' (by simp; omega)
+    refine ⟨h1, s.k.nextPid :: news, by simpa using h2, by simp [h3], ?_⟩
+    intro p hp
+    rcases List.mem_cons.mp hp with rfl | hp
+    · exact Nat.le_refl _
+    · have := h4 p hp; omega
+  · have hN : l.length = N := by omega
+    simp only [hN, Nat.sub_self, List.replicate_zero]
+    obtain ⟨h1, h2, _, _⟩ := check_idleL u N l s hi hd hN
+    exact ⟨h1, [], by simpa [run] using h2, rfl, fun p hp => by cases hp⟩
+
+/-- … and the list of workers stays what it is under further checks -/
+theorem checks_stayL (u N : Nat) (l : List Nat) (hN : l.length = N) : ∀ (n : Nat) (s : State), Idle u s → DatL u N l s →
+    Idle u (run s (List.replicate n .check)) ∧ DatL u N l (run s (List.replicate n .check)) ∧
+    (run s (List.replicate n .check)).log = s.log := by
+  intro n
+  induction n with
+  | zero => intro s hi hd; exact ⟨hi, hd, rfl⟩
+  | succ n ih =>
+    intro s hi hd
+    obtain ⟨hi', hd', _, hlog⟩ := check_idleL u N l s hi hd hN
+    rw [List.replicate_succ, run_cons]
+    obtain ⟨h1, h2, h3⟩ := ih _ hi' hd'
+    exact ⟨h1, h2, h3.trans hlog⟩
 
 end Circus.Core
